@@ -268,5 +268,10 @@ func ByName(name string) (reflect.Type, bool) {
 			return e.Type, true
 		}
 	}
+	for _, e := range Colliders {
+		if e.Name == name {
+			return e.Type, true
+		}
+	}
 	return nil, false
 }
